@@ -64,6 +64,7 @@ class Gen:
                 self.types[name] = ("struct", [(f, self.field_ty()) for f in names])
             else:
                 nv = self.rng.choice([1, 2, 3, 4])
+                shared = self.rng.random() < 0.5
                 vs = []
                 rec = False
                 for j in range(nv):
@@ -73,7 +74,8 @@ class Gen:
                         # recursion only in a non-first variant so that values can terminate
                         t = self.field_ty(name, allow_self=(j > 0))
                         tys.append(t)
-                    vs.append(("V%d_%d" % (i, j), tys))
+                    # variant names may be shared between enums of one package (they are always written qualified)
+                    vs.append((("Sh%d" % j) if shared else ("V%d_%d" % (i, j)), tys))
                 self.types[name] = ("enum", vs)
             self.order.append(name)
 
